@@ -135,6 +135,25 @@ fn op_num(r: AggregateResult) -> Option<f64> {
     }
 }
 
+thread_local! {
+    /// the run's five LONG-LIVED aggregators (count, sum, average, min, max): asked about every window state of
+    /// the run, one after the other — an aggregator that remembered anything between two questions would show
+    static AGGS: std::cell::RefCell<Option<Vec<Aggregator>>> = const { std::cell::RefCell::new(None) };
+}
+
+fn reset_aggregators() {
+    let fld = || "v".to_string();
+    AGGS.with(|a| {
+        *a.borrow_mut() = Some(vec![
+            Aggregator::new(AggregationType::Count),
+            Aggregator::new(AggregationType::Sum { field: fld() }),
+            Aggregator::new(AggregationType::Average { field: fld() }),
+            Aggregator::new(AggregationType::Min { field: fld() }),
+            Aggregator::new(AggregationType::Max { field: fld() }),
+        ])
+    });
+}
+
 /// agg.fold on one TimeWindow: its own methods and the Aggregator against the fold over events()
 fn check_window_aggregates(w: &TimeWindow, evs: &[Ev], site: &str, step: usize, obs: &mut Obs) -> Result<(), Violation> {
     let members: Vec<usize> = w.events().iter().map(|e| idx_of(&e.id)).collect();
@@ -165,7 +184,20 @@ fn check_window_aggregates(w: &TimeWindow, evs: &[Ev], site: &str, step: usize, 
         return bad("max", format!("{:?}", w.max("v")), format!("{:?}", f.max));
     }
     let fld = || "v".to_string();
-    let a = |t: AggregationType| agg_num(Aggregator::new(t).aggregate(w));
+    // asked of the run's long-lived aggregator of that kind (the first question of a run is a fresh one anyway)
+    let a = |t: AggregationType| {
+        let k = match &t {
+            AggregationType::Count => 0,
+            AggregationType::Sum { .. } => 1,
+            AggregationType::Average { .. } => 2,
+            AggregationType::Min { .. } => 3,
+            _ => 4,
+        };
+        AGGS.with(|g| match g.borrow().as_ref() {
+            Some(v) => agg_num(v[k].aggregate(w)),
+            None => agg_num(Aggregator::new(t).aggregate(w)),
+        })
+    };
     if a(AggregationType::Count) != Some(f.count as f64) {
         return bad("aggregator-count", format!("{:?}", a(AggregationType::Count)), f.count.to_string());
     }
@@ -796,6 +828,7 @@ impl World for WindowWorld {
         if t.duration_ms == 0 || t.cap == 0 || t.max_windows == 0 || CLOCK_BASE_MS % 30 != 0 {
             return Ok(()); // outside the property's configuration space (or a broken constant)
         }
+        reset_aggregators();
         let alpha = matches!(t.kind, Kind::AlphaSliding | Kind::AlphaTumbling | Kind::AlphaNoWindow);
         let reordered = t.events.windows(2).any(|w| w[1].ts < w[0].ts);
         obs.faulty = if alpha { t.events.iter().any(|e| e.clock_adv <= 0) || !t.tick_pattern.is_empty() } else { reordered };
